@@ -15,6 +15,7 @@ import (
 	"sort"
 	"strconv"
 	"strings"
+	"time"
 
 	"github.com/richardwilkes/toolbox/collection/quadtree"
 	"github.com/richardwilkes/toolbox/xmath/geom"
@@ -54,6 +55,46 @@ func sameIDs(a, b []int) bool {
 		}
 	}
 	return true
+}
+
+// Independent evaluation of the three geom predicates straight from the property text (half-open point containment;
+// Contains = non-empty and the extreme representable points of the inner rectangle are In the outer; Intersects = the
+// candidate point (max lefts, max tops) is In both).  The linear scan uses the library's predicates, as the property
+// says, and every single evaluation is cross-checked against these, so that a defect in geom cannot hide on both sides.
+func indepIn(px, py float64, r geom.Rect[float64]) bool {
+	if r.Width <= 0 || r.Height <= 0 {
+		return false
+	}
+	return r.X <= px && r.Y <= py && px < r.X+r.Width && py < r.Y+r.Height
+}
+
+func indepContains(a, b geom.Rect[float64]) bool {
+	if b.Width <= 0 || b.Height <= 0 {
+		return false
+	}
+	down := math.Inf(-1)
+	for _, x := range []float64{b.X, math.Nextafter(b.X+b.Width, down)} {
+		for _, y := range []float64{b.Y, math.Nextafter(b.Y+b.Height, down)} {
+			if !indepIn(x, y, a) {
+				return false
+			}
+		}
+	}
+	return true
+}
+
+func indepIntersects(a, b geom.Rect[float64]) bool {
+	x, y := math.Max(a.X, b.X), math.Max(a.Y, b.Y)
+	return indepIn(x, y, a) && indepIn(x, y, b)
+}
+
+var predMismatch string // first disagreement between geom and the independent evaluation in the current history
+
+func chk(what string, lib, ind bool, skip bool, args ...any) bool {
+	if lib != ind && !skip && predMismatch == "" {
+		predMismatch = fmt.Sprintf("%s%v: geom says %v, independent evaluation %v", what, args, lib, ind)
+	}
+	return lib
 }
 
 func scan(stored []*fnode, pred func(*fnode) bool) []*fnode {
@@ -123,6 +164,9 @@ func (fsArea) Run(line string) string {
 	if len(f) < 2 || f[0] != "fs" {
 		return "bad-op"
 	}
+	busySince.Store(time.Now().UnixNano())
+	defer busySince.Store(0)
+	predMismatch = ""
 	var q quadtree.QuadTree[float64, *fnode]
 	q.Threshold = hx.Atoi(f[1])
 	objs := map[int]*fnode{}
@@ -190,7 +234,7 @@ func (fsArea) Run(line string) string {
 			return ""
 		}
 		for _, p := range pts {
-			in := func(o *fnode) bool { return p.In(o.r) }
+			in := func(o *fnode) bool { return chk("In", p.In(o.r), indepIn(p.X, p.Y, o.r), false, p, o.r) }
 			if s := cmp("ContainsPoint", p, q.ContainsPoint(p), q.FindContainsPoint(p), in); s != "" {
 				return s
 			}
@@ -200,9 +244,16 @@ func (fsArea) Run(line string) string {
 			}
 		}
 		for _, r := range rects {
-			ix := func(o *fnode) bool { return o.r.Intersects(r) }
-			cr := func(o *fnode) bool { return o.r.Contains(r) }
-			cb := func(o *fnode) bool { return r.Contains(o.r) }
+			ab := absorbed(r)
+			ix := func(o *fnode) bool {
+				return chk("Intersects", o.r.Intersects(r), indepIntersects(o.r, r), ab || absorbed(o.r), o.r, r)
+			}
+			cr := func(o *fnode) bool {
+				return chk("Contains", o.r.Contains(r), indepContains(o.r, r), ab || absorbed(o.r), o.r, r)
+			}
+			cb := func(o *fnode) bool {
+				return chk("Contains", r.Contains(o.r), indepContains(r, o.r), ab || absorbed(o.r), r, o.r)
+			}
 			for _, c := range []struct {
 				what  string
 				b     bool
@@ -222,6 +273,9 @@ func (fsArea) Run(line string) string {
 			}
 		}
 	}
+	if predMismatch != "" {
+		return "FAIL " + predMismatch
+	}
 	return "ok " + strconv.Itoa(checks)
 }
 
@@ -239,7 +293,8 @@ func fsCoord(r *hx.Rng) float64 {
 		return float64(r.Range(0, 400))/10 + 0.1 + 0.2 // sums that round
 	case 4:
 		return hx.Pick(r, []float64{12.9, 27.700000000000003, 0.1, 0.3, 1.1, 2.675, 30.400000000000002, 1e6 + 0.1, -1e6 - 0.7,
-			1e9 + 0.7, -1e12 - 0.3, 1e15 + 0.5, 1e16, 3e-9, -7e-12})
+			1e9 + 0.7, -1e12 - 0.3, 1e15 + 0.5, 1e16, 3e-9, -7e-12,
+			math.Copysign(0, -1), 5e-324, -5e-324, 2.2250738585072014e-308, 3e-310, 1e300, -1e300, 4e307})
 	case 5:
 		return float64(r.Range(-50, 50)) * 0.1
 	case 6:
@@ -258,7 +313,7 @@ func fsSize(r *hx.Rng) float64 {
 	case 1:
 		return -0.5
 	case 2:
-		return hx.Pick(r, []float64{0.7, 2.7, 0.1, 0.3, 1.0 / 3, 1e-3})
+		return hx.Pick(r, []float64{0.7, 2.7, 0.1, 0.3, 1.0 / 3, 1e-3, 5e-324, 1e-310, 1e300, 4e307, math.Copysign(0, -1)})
 	case 3:
 		return float64(r.Range(1, 9)) / 10
 	case 4:
@@ -276,7 +331,7 @@ func ulp(x float64) float64 {
 func (fsArea) Gen(r *hx.Rng, n int, _ string, emit func(string)) {
 	for i := 0; i < n; i++ {
 		h := r.Fork()
-		thr := hx.Pick(h, []int{0, 3, 4, 4, 4, 5, 5, 64})
+		thr := hx.Pick(h, []int{0, 3, 4, 4, 4, 5, 5, 64, -1, 1, 10, 9223372036854775807})
 		steps := h.Range(3, 28)
 		nid := h.Range(2, 14)
 		type rc struct{ x, y, w, hh float64 }
@@ -330,7 +385,7 @@ func (fsArea) Gen(r *hx.Rng, n int, _ string, emit func(string)) {
 			case c < 94:
 				parts = append(parts, "G")
 			case c < 97:
-				parts = append(parts, "T,"+strconv.Itoa(hx.Pick(h, []int{0, 3, 4, 5, 64})))
+				parts = append(parts, "T,"+strconv.Itoa(hx.Pick(h, thrValues)))
 			default:
 				parts = append(parts, "C")
 				in = in[:0]
